@@ -6,7 +6,7 @@ to the model, which then has to reproduce every snapshot (position, momentum, de
 hop / frustrated-hop event of the run."""
 import numpy as np
 
-from .core import fb, fbs, cbs, unfb, allclose
+from .core import fb, fbs, cbs, unfb, allclose, safe_oracle, raised_in_repo, Model
 from .synth import SynthModel, random_rho
 from . import eleccommon as ec
 
@@ -134,12 +134,48 @@ def compare(spec, out, snaps, events, mass):
     return None, {"steps": steps, "accepted": sum(1 for e in mev if e[1] == 1), "frustrated": sum(1 for e in mev if e[1] == 0)}
 
 
+@safe_oracle
+def oracle_whole_run(args):
+    """one whole run of the real class against the composed-step model (used to replay a run on which the implementation
+    raised, or on which it and the model differ): the implementation has to get through the run, and the model has to
+    reproduce every snapshot and event"""
+    spec = dict(args)
+    if spec.get("cls") == "AugmentedFSSH":
+        line, states, hop_ev, col_ev, caps, mass = record_afssh(spec)
+        prob = afssh_property_problem(states)
+        st = {}
+        if prob is None:
+            out = Model().run([line])[0]
+            prob, st = compare_afssh(spec, out, states, hop_ev, col_ev, caps, mass)
+    else:
+        line, snaps, events, mon, mass = record_run(spec)
+        out = Model().run([line])[0]
+        prob, st = compare(spec, out, snaps, events, mass)
+    return prob is None, dict(st, problem=prob), {"problem": None}, prob or "ok"
+
+
+def _guarded_record(ctx, label, spec, fn):
+    """record one run of the implementation; if the implementation itself raises, that run is a failing input"""
+    try:
+        return fn(spec)
+    except Exception as e:  # noqa
+        if not raised_in_repo(e):
+            raise
+        ok, obs, req, text = oracle_whole_run(spec)
+        ctx.case(None)
+        ctx.oracle_fail(label + "-raised", "whole_run", spec, obs, req, text)
+        return None
+
+
 def run_correspondence(ctx, count, hops=True, label="shrun", cls="TrajectorySH"):
     rng = ctx.rng
     specs, lines, recs = [], [], []
     for _ in range(count):
         spec = make_spec(rng, hops=hops, cls=cls)
-        line, snaps, events, mon, mass = record_run(spec)
+        got = _guarded_record(ctx, label, spec, record_run)
+        if got is None:
+            continue
+        line, snaps, events, mon, mass = got
         ctx.monitor("eigh_orthonormality", mon["orth"])
         ctx.monitor("eigh_residual_rel", mon["resid"])
         specs.append(spec); lines.append(line); recs.append((snaps, events, mass))
@@ -226,6 +262,17 @@ def record_afssh(spec):
     return line, states, hop_ev, col_ev, (capR, capP, capE), np.array(model.mass)
 
 
+def afssh_property_problem(states):
+    """C11 on the implementation's own run: both moment tensors Hermitian after every step (relative 1e-9)"""
+    for k, (_x, _v, _rho, _st, dR, dP) in enumerate(states):
+        for name, X in (("delR", dR), ("delP", dP)):
+            size = float(np.max(np.abs(X)))
+            err = float(np.max(np.abs(X - np.conj(np.transpose(X, (0, 2, 1))))))
+            if not np.all(np.isfinite(X)) or err > 1e-9 * size + 1e-300:
+                return "step %d: %s of the implementation is not Hermitian (defect %.3g of %.3g)" % (k + 1, name, err, size)
+    return None
+
+
 def compare_afssh(spec, out, states, hop_ev, col_ev, caps, mass):
     N, n = 2, spec["n"]
     steps = len(states)
@@ -293,11 +340,17 @@ def run_afssh_correspondence(ctx, count, label="afrun"):
         spec = dict(n=n, K=K, model_seed=int(rng.integers(1, 10 ** 6)), x0=[float(v) for v in rng.normal(size=n) * 0.5],
                     p0=[float(v) for v in rng.normal(size=n) * 10 + 5], state=int(rng.integers(0, 2)), dt=float(rng.choice([1.0, 4.0, 10.0])),
                     zetas=[float(z) for z in rng.random(K + 3) * rng.choice([0.05, 0.3, 1.0])], t0=float(rng.choice([0.0, 3.5])),
-                    seed=int(rng.integers(1, 2 ** 31)), gamma_scale=float([1.0, 30.0, 1000.0][i % 3]))
-        line, states, hop_ev, col_ev, caps, mass = record_afssh(spec)
+                    seed=int(rng.integers(1, 2 ** 31)), gamma_scale=float([1.0, 30.0, 1000.0][i % 3]), cls="AugmentedFSSH")
+        got = _guarded_record(ctx, label, spec, record_afssh)
+        if got is None:
+            continue
+        line, states, hop_ev, col_ev, caps, mass = got
         specs.append(spec); lines.append(line); recs.append((states, hop_ev, col_ev, caps, mass))
     outs = ctx.model.run(lines)
     for spec, out, (states, hop_ev, col_ev, caps, mass) in zip(specs, outs, recs):
+        pp = afssh_property_problem(states)
+        if pp:
+            ctx.oracle_fail(label + "-moments-not-hermitian", "whole_run", spec, {"problem": pp}, {"problem": None}, pp)
         prob, st = compare_afssh(spec, out, states, hop_ev, col_ev, caps, mass)
         ctx.case((label, spec["n"], min(st.get("accepted", 0), 2), min(st.get("collapses", 0), 2)),
                  {"op": label, "n": spec["n"], "steps": len(states), "hops": hop_ev[:3], "collapses": col_ev[:3]})
